@@ -3,6 +3,7 @@ import H2V.Lemmas.HpackEnc
 import H2V.Lemmas.Huffman
 import H2V.Lemmas.HpackDec
 import H2V.Props.C11
+import H2V.Props.C12
 /-
   C10 — HPACK encoder and decoder stay in sync.  Property theorems only.
 -/
@@ -126,6 +127,32 @@ theorem own_decoder_lockstep_history
       · cases hd
     · cases hm
 
+/-- **… cut by h2's own writer.** The HPACK block of a HEADERS / PUSH_PROMISE frame, cut by
+    `splitBlock` (the mirror of `frame::headers` + `Continuation::encode`) under ANY peer max frame
+    size, appears on the wire — as seen by the independent RFC 9113 parser — as one head frame plus
+    CONTINUATION frames, and feeding exactly those fragments one by one to the decoder mirror, if it
+    accepts, yields what the RFC 7541 reference assigns to the uncut block (C12
+    `parse_serialize_header_block` ∘ C11 `fragments_decode_sound`): the cut points the writer
+    chooses never change what is read back. -/
+theorem block_cut_by_the_writer_reads_back (fuel maxFrame kind flags sid : Nat) (pre hpack : Bytes) (F maxSize : Nat)
+    (hpre : pre.length < maxFrame) (hmax : maxFrame < 2 ^ 24) (hs0 : sid ≠ 0) (hs : sid < 2 ^ 31)
+    (hfuel : hpack.length < fuel) (hF : fuel < F) (hms : maxFrame ≤ maxSize) :
+    ∃ frag0 frags,
+      Spec.Frame.frames F maxSize (Model.Frame.splitBlock fuel maxFrame kind flags sid pre hpack) =
+        (Spec.Frame.ofParts kind (if frags.isEmpty then flags else flags - 4) sid (pre ++ frag0)
+          :: (Lemmas.Codec.contFrames sid frags).map .ok, []) ∧
+      ∀ (d : Decoder), Lemmas.HpackDec.Table.Inv d.table → Bytes.Valid hpack → d.continuing = false →
+        (frags.foldl Lemmas.HpackDec.feed (d.decode frag0)).result = .ok () →
+        Spec.Hpack.decode (Lemmas.HpackDec.abs d) hpack
+          = .ok ((frags.foldl Lemmas.HpackDec.feed (d.decode frag0)).fields,
+                 Lemmas.HpackDec.abs (frags.foldl Lemmas.HpackDec.feed (d.decode frag0)).dec) := by
+  obtain ⟨frag0, frags, hcat, -, -, hframes⟩ :=
+    C12.parse_serialize_header_block fuel maxFrame kind flags sid pre hpack F maxSize hpre hmax hs0 hs hfuel hF hms
+  refine ⟨frag0, frags, hframes, ?_⟩
+  intro d hi hv hc hr
+  subst hcat
+  exact (C11.fragments_decode_sound d frag0 frags hi hv hc hr).1
+
 -- non-vacuity: a concrete history (shrink to 100, two blocks with a repeated and a nameless field) is well-formed
 example : WF [.setMax 100, .block [⟨([120, 45, 97], [49]), false, false⟩, ⟨([120, 45, 97], [50]), false, true⟩],
               .block [⟨([120, 45, 97], [49]), false, false⟩]] := by decide
@@ -149,5 +176,10 @@ example :
        ([([97], [98])], [190])]).isSome = true ∧
     (C11.blocksOk (Decoder.new 4096) [([130, 64, 1], [[97], [1, 98]]), ([190], [[]])]).isSome = true := by
   decide +kernel
+
+-- non-vacuity: the arithmetic hypotheses of `block_cut_by_the_writer_reads_back` are met by a 6-octet
+-- block under a 4-octet frame limit (two CONTINUATION frames)
+example := block_cut_by_the_writer_reads_back 10 4 1 4 1 [] [130, 64, 1, 97, 1, 98] 11 16384
+  (by decide) (by decide) (by decide) (by decide) (by decide) (by decide) (by decide)
 
 end H2V.Props.C10
